@@ -290,3 +290,64 @@ package dag
 //@     step cancel.once {C14}: handledContext && !old_iter(handledContext) ==> len(g.errs.Errors) == old_iter(len(g.errs.Errors)) + 1
 //@     step exit.alldone {C14,C16}: $exit && !$returned ==> (forall id ID :: (id in g.Vertices) ==> g.Vertices[id].status == runDone)
 //@     step status.scheduler {C13}: forall u *Vertex :: u.status == old_iter(u.status) || u.status == runSkip || u.status == runDone || u.status == runInProgress
+
+// ---- small constructors and accessors (safety and frames; C16: definition errors are recorded, never lost) ----------
+//@ func NewTask
+//@   props C16 C19
+//@   allocates Task
+//@   modifies
+//@   ensures newtask {C16}: result != nil && fresh(result) && result.Fn == fn
+
+//@ func NewTaskMap
+//@   props C16 C19
+//@   allocates TaskMap, Errors, map[string]*Task
+//@   modifies
+//@   ensures newtaskmap {C16}: result != nil && fresh(result) && result.m != nil && result.errs != nil && len(result.errs.Errors) == 0
+
+//@ func (*TaskMap).Add
+//@   props C16 C19
+//@   requires tm != nil && tm.m != nil && tm.errs != nil
+//@   allocates Task
+//@   modifies mapof(tm.m), tm.errs.Errors
+//@   ensures tmadd.task {C16}: result != nil && fresh(result) && result.Fn == fn && (id in tm.m) && tm.m[id] == result
+//@   ensures tmadd.errors {C16}: (id == "" || fn == nil || old(id in tm.m)) ==> len(tm.errs.Errors) > old(len(tm.errs.Errors))
+//@   ensures tmadd.grow {C16}: len(tm.errs.Errors) >= old(len(tm.errs.Errors))
+
+//@ func (*TaskMap).Get
+//@   props C16 C19
+//@   requires tm != nil && tm.m != nil && tm.errs != nil && (forall k string :: (k in tm.m) ==> tm.m[k] != nil)
+//@   allocates Task
+//@   modifies tm.errs.Errors
+//@   ensures tmget.found {C16}: (id in tm.m) ==> result == tm.m[id] && len(tm.errs.Errors) == old(len(tm.errs.Errors))
+//@   ensures tmget.missing {C16}: !(id in tm.m) ==> result != nil && len(tm.errs.Errors) == old(len(tm.errs.Errors)) + 1
+
+//@ func (*TaskMap).Validate
+//@   props C16 C19
+//@   requires tm != nil && tm.errs != nil
+//@   modifies
+//@   ensures tmvalidate {C16}: (result == nil) == (len(tm.errs.Errors) == 0)
+
+//@ func (*Graph).Task
+//@   props C16 C19
+//@   requires WF(g)
+//@   allocates Task
+//@   modifies g.errs.Errors
+//@   ensures gtask.found {C16}: (id in g.Vertices) ==> result == g.Vertices[id].Task && len(g.errs.Errors) == old(len(g.errs.Errors))
+//@   ensures gtask.missing {C16}: !(id in g.Vertices) ==> result != nil && len(g.errs.Errors) == old(len(g.errs.Errors)) + 1
+
+//@ func (*Graph).Validate
+//@   props C16 C19
+//@   requires g != nil && g.errs != nil && (tm != nil ==> tm.errs != nil)
+//@   modifies
+//@   ensures gvalidate {C16}: result == nil ==> len(g.errs.Errors) == 0 && (tm != nil ==> len(tm.errs.Errors) == 0)
+
+//@ func (*Graph).SetOutputBuffer
+//@   props C15 C19
+//@   requires g != nil
+//@   modifies g.bufferOutput, g.bufferWriter, g.bufferMutex
+//@   ensures setbuf {C15}: result == g && g.bufferOutput && g.bufferWriter == w
+
+//@ func (*Errors).Error
+//@   props C14 C19
+//@   requires errs != nil
+//@   modifies
